@@ -172,7 +172,7 @@ def gen_input_case(rng):
 
 def gen_focus_case(rng, prop):
     """Property-specific families of sessions."""
-    if prop in ("C08", "C04") and rng.random() < 0.15:
+    if prop in ("C08", "C04", "C05") and rng.random() < 0.15:
         # the same screen object twice on the stack, ADJACENT, with equal arguments and modality; the upper entry
         # closes itself (or is replaced) from refresh(): the scheduler must notice that the top ENTRY changed although
         # the entry beneath looks the same
@@ -181,6 +181,14 @@ def gen_focus_case(rng, prop):
         s0 = spec(refresh=[[15, 1, [act], []]], inputs=[("1", [[0, 0, a]], [0]), ("2", [], [2]), ("3", [[0, 1, 0]], [0])],
                   closed=[[14, 1]])
         s1 = spec(inputs=[("1", [], [2]), ("2", [[0, 0, a], [0, 0, a]], [0])])
+        if prop == "C05" or rng.random() < 0.25:
+            # ... the upper entry being a MODAL use of the same screen object with other arguments (a screen that shows itself
+            # modally as a detail view), which closes itself from its first refresh()
+            b = rng.choice([3, 7, a])
+            k = rng.choice([1, 2])
+            s0 = spec(refresh=[[15, k, [], [[15, k + 1, [act], []]]]],
+                      inputs=[("1", [[1, 0, b]], [rng.choice([0, 1])]), ("2", [], [2]), ("3", [[1, 0, b], [1, 0, a]], [1])],
+                      closed=[[14, 1]])
         typed = [L(rng.choice(["1", "2", "3", "c", "r"])) for _ in range(rng.randrange(2, 10))]
         first = [[3, 0, a], [0, 0, a]] if rng.random() < 0.7 else [[3, 0, a], [3, 0, a], [0, 0, a]]
         return [3000, [s0, s1], typed, [], 0, [[0] + first, [1]]]
